@@ -326,23 +326,28 @@ ETermMe(j) ==  \* urgent
   /\ UNCHANGED <<lchk, cfg, jobs, gate, evt, woken, melock, dst, att, ljob, wt, wdl, edl, esleep, now>>
 
 G_ERetry(j) == pc[Env(j)] = "e_retry"
+\* seeded model bug wake_before_append (change C05-r5m2): _retry wakes the submit thread BEFORE it takes the lock and queues
+\* the job ("it has to wait for our lock anyway"): the two steps below swap their effects
+Requeue(j) ==
+  LET i == IdxOf(j, TRUE) IN
+    jobs' = Append(Remove(jobs, i),
+                   [f |-> j, d |-> FALSE, att |-> att[j], when |-> now + esleep[j],
+                    stop |-> IF Bug = "no_inherit" THEN FALSE ELSE (i # 0 /\ jobs[i].stop)])
 ERetry(j) ==   \* _retry: with executor._lock: pop the running job, append the waiting one (stop_retry inherited)
   /\ G_ERetry(j) /\ NU
-  /\ LET i == IdxOf(j, TRUE) IN
-       jobs' = Append(Remove(jobs, i),
-                      [f |-> j, d |-> FALSE, att |-> att[j], when |-> now + esleep[j],
-                       stop |-> IF Bug = "no_inherit" THEN FALSE ELSE (i # 0 /\ jobs[i].stop)])
+  /\ IF Bug = "wake_before_append" THEN SetEvent /\ UNCHANGED jobs ELSE Requeue(j) /\ UNCHANGED <<evt, woken>>
   /\ pc' = [pc EXCEPT ![Env(j)] = "e_rset"]
   /\ actor' = Env(j) /\ NoEmit
-  /\ UNCHANGED <<lchk, cfg, gate, evt, woken, melock, fst, dst, att, ljob, wt, wdl, edl, esleep, now>>
+  /\ UNCHANGED <<lchk, cfg, gate, melock, fst, dst, att, ljob, wt, wdl, edl, esleep, now>>
 
 G_ERSet(j) == pc[Env(j)] = "e_rset"
 ERSet(j) ==
   /\ G_ERSet(j) /\ NU
-  /\ IF Bug = "no_wake_on_retry" THEN UNCHANGED <<evt, woken>> ELSE SetEvent
+  /\ IF Bug = "wake_before_append" THEN Requeue(j) /\ UNCHANGED <<evt, woken>>
+     ELSE /\ (IF Bug = "no_wake_on_retry" THEN UNCHANGED <<evt, woken>> ELSE SetEvent) /\ UNCHANGED jobs
   /\ pc' = [pc EXCEPT ![Env(j)] = "e_idle"]
   /\ actor' = Env(j) /\ NoEmit
-  /\ UNCHANGED <<lchk, cfg, jobs, gate, melock, fst, dst, att, ljob, wt, wdl, edl, esleep, now>>
+  /\ UNCHANGED <<lchk, cfg, gate, melock, fst, dst, att, ljob, wt, wdl, edl, esleep, now>>
 
 G_EPop(j) == pc[Env(j)] = "e_pop"
 EPop(j) ==     \* _pop_job(found_job)
